@@ -13,11 +13,19 @@ import (
 // simulator-side cases.
 type simCfg struct {
 	M, R, W, P, Cycles int
+	Mode               int // 0 ICWS94, 1 NOP94, 2 ICWS88 (the simulator executes all three alike)
 }
 
 func (c simCfg) G() gmars.SimulatorConfig {
+	mode := gmars.ICWS94
+	switch c.Mode {
+	case 1:
+		mode = gmars.NOP94
+	case 2:
+		mode = gmars.ICWS88
+	}
 	return gmars.SimulatorConfig{
-		Mode: gmars.ICWS94, CoreSize: gmars.Address(c.M), Processes: gmars.Address(c.P),
+		Mode: mode, CoreSize: gmars.Address(c.M), Processes: gmars.Address(c.P),
 		Cycles: gmars.Address(c.Cycles), ReadLimit: gmars.Address(c.R), WriteLimit: gmars.Address(c.W),
 		Length: 0, Distance: 0,
 	}
